@@ -44,6 +44,11 @@ DATA_POOL = {
     "ts": [0, 1, 86400, 1700000000, "1700000000", "2024-03-05 10:20:30", "March 5, 2024", "not a date", 1.0, True],
     "v": ["V", 0, None],
     "g": ["G"],
+    # read from the render context by the context-aware extra filters (currency, money, decimal, unit, datetime, t)
+    "currency_code": ["USD", "EUR", "JPY"],
+    "locale": ["en_US", "de_DE", "fr"],
+    "timezone": ["UTC", "America/New_York", "Asia/Tokyo"],
+    "you": ["World", "Ann"],
 }
 DATA_NAMES = list(DATA_POOL)
 
@@ -66,7 +71,7 @@ def gen_data(rng, drops=False):
 # ---------------------------------------------------------------------------
 # expressions (strings)
 
-STR_LITS = ["'a'", "\"b\"", "''", "'hello world'", "'a,b'", "','", "' '", "'%Y-%m-%d'", "'%H:%M'", "'title'",
+STR_LITS = ["'Hello, %(you)s!'", "'a'", "\"b\"", "''", "'hello world'", "'a,b'", "','", "' '", "'%Y-%m-%d'", "'%H:%M'", "'title'",
             "'price'", "'name'", "'x'", "'1'", "'<i>'", "'now'", "'today'", "'é'"]
 NUM_LITS = ["0", "1", "2", "3", "-1", "10", "1.5", "0.0", "-2.5", "100"]
 CONST_LITS = ["true", "false", "nil", "null"]
@@ -104,8 +109,8 @@ FILTERS = {
     "squish": [], "escapejs": [],
 }
 EXTRA_FILTERS = {
-    "json": [], "index": ["any"], "sort_numeric": ["?key"], "script_tag": [], "stylesheet_tag": [], "t": [],
-    "gettext": [], "decimal": [], "currency": [], "money": [], "unit": ["s"], "datetime": [],
+    "json": [], "index": ["any"], "sort_numeric": ["?key"], "script_tag": [], "stylesheet_tag": [], "t": ["?tkw"],
+    "gettext": ["?tkw"], "decimal": [], "currency": [], "money": [], "unit": ["s"], "datetime": [],
 }
 ARRAY_IN = ["items", "words", "objs", "nested", "objs[0].tags", "(1..3)", "s"]
 STRING_IN = ["s", "t", "e", "user.name", "'a b c'", "'x<y'"]
@@ -119,6 +124,7 @@ FILTER_INPUT_HINT = {  # which kind of left operand makes the filter do somethin
     "abs": NUMBER_IN, "at_least": NUMBER_IN, "at_most": NUMBER_IN, "ceil": NUMBER_IN, "floor": NUMBER_IN,
     "divided_by": NUMBER_IN, "minus": NUMBER_IN, "modulo": NUMBER_IN, "plus": NUMBER_IN, "times": NUMBER_IN,
     "round": NUMBER_IN, "decimal": NUMBER_IN, "currency": NUMBER_IN, "money": NUMBER_IN, "unit": NUMBER_IN,
+    "t": ["'Hello, %(you)s!'", "s"], "gettext": ["'Hello, %(you)s!'", "s"],
 }
 
 
@@ -182,6 +188,8 @@ class ExprGen:
         if kind == "fmt":
             return r.choice(["'%Y-%m-%d'", "'%Y'", "'%H:%M:%S'", "'%a, %b %d, %y'", "'%s'", "'%j %Z %z'", "''", "s",
                              "'%Y-%m-%d %H:%M:%S.%f'"])
+        if kind == "tkw":
+            return "you: %s" % r.choice(["s", "user.name", "'Bob'", "x"])
         if kind == "allow_false":
             sep = "=" if self.flags.get("keyword_assignment") and r.chance(0.3) else ":"
             return "allow_false%s %s" % (sep, r.choice(["true", "false", "flag"]))
